@@ -603,6 +603,12 @@ func ruleEscSet(c *Ctx, h *htxEngine) {
 							if bo, ok := rr.(*ssa.BinOp); ok && (bo.Op == token.EQL || bo.Op == token.NEQ || bo.Op == token.GEQ || bo.Op == token.LSS || bo.Op == token.GTR || bo.Op == token.LEQ) {
 								feeds = true
 							}
+							// handed to a table function of the byte (classified there)
+							if cl, ok := rr.(*ssa.Call); ok && len(cl.Call.Args) == 1 {
+								if g := cl.Call.StaticCallee(); g != nil && c.P.InModule(g) {
+									feeds = true
+								}
+							}
 						}
 					}
 				}
@@ -645,6 +651,26 @@ func ruleEscSet(c *Ctx, h *htxEngine) {
 		if ev.kind == evRaw {
 			if call, isCall := in.(*ssa.Call); isCall && len(call.Call.Args) == 2 && isStringPhiOfConsts(call.Call.Args[1]) {
 				continue
+			}
+			// the result of a table function all of whose results are string constants
+			if call, isCall := in.(*ssa.Call); isCall && len(call.Call.Args) == 2 {
+				if tc, ok := call.Call.Args[1].(*ssa.Call); ok {
+					if g := tc.Call.StaticCallee(); g != nil && c.P.InModule(g) && g.Blocks != nil {
+						all := true
+						for _, r := range returnsOf(g) {
+							if len(r.Results) != 1 {
+								all = false
+								continue
+							}
+							if _, isConst := constString(r.Results[0]); !isConst && !isStringPhiOfConsts(r.Results[0]) {
+								all = false
+							}
+						}
+						if all {
+							continue
+						}
+					}
+				}
 			}
 			if call, isCall := in.(*ssa.Call); isCall && len(call.Call.Args) == 2 && sliceOfWalkingSource(call.Call.Args[1], fn) {
 				continue
@@ -875,6 +901,17 @@ func stringOnPath(st *evalState, v ssa.Value) (string, bool) {
 		if s, ok := constString(v); ok {
 			return s, true
 		}
+		// a table function of the scanned byte: R(b) returning a constant string per byte value
+		if call, isCall := v.(*ssa.Call); isCall {
+			if g := call.Call.StaticCallee(); g != nil && st.e.p.InModule(g) && g.Blocks != nil && len(call.Call.Args) == 1 && len(g.Params) == 1 {
+				if a, ok := st.eval(call.Call.Args[0]); ok {
+					if str, ok := constStringResultAt(st.e, g, a); ok {
+						return str, true
+					}
+				}
+			}
+			return "", false
+		}
 		ph, ok := v.(*ssa.Phi)
 		if !ok {
 			return "", false
@@ -951,4 +988,43 @@ func sliceOfWalkingSource(v ssa.Value, fn *ssa.Function) bool {
 		return false
 	}
 	return w(v, 0)
+}
+
+// constStringResultAt: the constant string a loop-free module function of one scalar parameter returns for the
+// argument value a (branches decided by the parameter; anything else makes the result unknown).
+func constStringResultAt(e *bsetEngine, g *ssa.Function, a int64) (string, bool) {
+	param := g.Params[0]
+	st := &evalState{e: e, fn: g, d: a, isSym: func(v ssa.Value) bool { return v == ssa.Value(param) }, from: make([]int, len(g.Blocks))}
+	for i := range st.from {
+		st.from[i] = -2
+	}
+	b := g.Blocks[0]
+	st.from[0] = -1
+	for steps := 0; steps <= len(g.Blocks); steps++ {
+		switch t := b.Instrs[len(b.Instrs)-1].(type) {
+		case *ssa.Return:
+			if len(t.Results) != 1 {
+				return "", false
+			}
+			return stringOnPath(st, t.Results[0])
+		case *ssa.Jump:
+			nb := b.Succs[0]
+			st.from[nb.Index] = b.Index
+			b = nb
+		case *ssa.If:
+			v, ok := st.eval(t.Cond)
+			if !ok {
+				return "", false
+			}
+			nb := b.Succs[1]
+			if v != 0 {
+				nb = b.Succs[0]
+			}
+			st.from[nb.Index] = b.Index
+			b = nb
+		default:
+			return "", false
+		}
+	}
+	return "", false
 }
